@@ -22,7 +22,7 @@ vars == <<fam, cs>>
 Nil == [k |-> "none"]
 
 \* ---- operand instances
-RQ == IF Deep THEN 0..15 ELSE {0, 3, 4, 7, 8, 13, 15}
+RQ == IF Deep THEN 0..15 ELSE {0, 4, 7, 8, 13, 15}
 RegChoices(kind, sz) == IF kind = "xmm" THEN {Xmm(n) : n \in RQ}
                         ELSE {Reg(n, sz) : n \in RQ} \cup (IF sz = 8 THEN {RegHi(n) : n \in 0..3} ELSE {})
 MemSmall(sz) == {Mem(3, None, 1, 0, sz), Mem(4, None, 1, 0, sz), Mem(5, None, 1, 0, sz), Mem(12, None, 1, 0, sz),
@@ -89,12 +89,12 @@ Inst(e) ==
 \* quick configuration: the opcode groups that differ only in the opcode number / extension are represented by three members
 Representative(e) ==
     \/ Deep
-    \/ /\ e.mn \in {AluMn[k] : k \in 1..8} => e.mn \in {"add", "sub", "cmp"}
-       /\ e.mn \in {ShMn[k] : k \in 1..8} => (e.ext \in {0, 4, 6, 7})
-       /\ e.mn \in {JccMn[k] : k \in 1..16} => e.mn \in {"jb", "je", "jg"}
+    \/ /\ e.mn \in {AluMn[k] : k \in 1..8} => e.mn \in {"add", "cmp"}
+       /\ e.mn \in {ShMn[k] : k \in 1..8} => (e.ext \in {4, 6, 7})
+       /\ e.mn \in {JccMn[k] : k \in 1..16} => e.mn \in {"jb", "jg"}
        /\ e.mn \in {CmovMn[k] : k \in 1..16} => e.mn \in {"cmovb", "cmovg"}
        /\ e.mn \in {SetMn[k] : k \in 1..16} => e.mn \in {"sete", "setg"}
-       /\ e.sse => e.op \in {16, 17, 42, 45, 46, 88, 90, 126}
+       /\ e.sse => e.op \in {16, 17, 42, 45, 46, 88, 126}
 \* the others: two instances each (opcode / extension / prefix mapping only)
 Few(e) == {i \in Inst(e) : i.osz = (CHOOSE s \in Sizes(e) : \A t \in Sizes(e) : s >= t) /\
                            \A j \in 1..Len(i.ops) : i.ops[j] \in {Reg(1, i.osz), Xmm(1), Reg(3, i.osz), One, Reg(0, i.osz), Reg(1, 8)}
@@ -158,9 +158,10 @@ Kat == <<
 
 \* the instance sets are constants, computed once (constant level: LET values are cached there, not inside actions)
 TableSeq == SetToSeq(Table)
-InstSeq == Mk([j \in 1..Len(TableSeq) |-> SetToSeq(IF Representative(TableSeq[j]) THEN Inst(TableSeq[j]) ELSE Few(TableSeq[j]))])
+InstSeq == IF "enc" \notin Fams THEN <<>>
+           ELSE Mk([j \in 1..Len(TableSeq) |-> SetToSeq(IF Representative(TableSeq[j]) THEN Inst(TableSeq[j]) ELSE Few(TableSeq[j]))])
 AdrEntry == CHOOSE e \in Table : e.map = 1 /\ e.op = 139
-AdrSeq == Mk([b \in 1..18 |-> SetToSeq({Build(AdrEntry, 64, Reg(9, 64), m, One, 0) :
+AdrSeq == IF "adr" \notin Fams THEN <<>> ELSE Mk([b \in 1..18 |-> SetToSeq({Build(AdrEntry, 64, Reg(9, 64), m, One, 0) :
                                           m \in {x \in MemAll(64) : x.base = (IF b = 17 THEN None ELSE IF b = 18 THEN RIP ELSE b - 1)}})])
 
 \* ---- state machine: one state per case
